@@ -35,6 +35,7 @@ from types import SimpleNamespace
 from autofit.messages.normal import NormalMessage
 
 
+ELEMS = None  # while reading an EPMeanFieldSubset: plate element held at each array position
 FLAT_W = 1   # plated cases: variable b, plate element k  <->  flattened id b * FLAT_W + k
 
 
@@ -45,7 +46,7 @@ def nat(mf, index):
         e = m.natural_parameters
         if m.shape:
             for k in range(m.size):
-                out.append([index[v] * FLAT_W + k, hexf(e[0][k]), hexf(e[1][k])])
+                out.append([index[v] * FLAT_W + (ELEMS[k] if ELEMS else k), hexf(e[0][k]), hexf(e[1][k])])
         else:
             out.append([index[v] * FLAT_W, hexf(e[0]), hexf(e[1])])
     return sorted(out)
@@ -57,7 +58,7 @@ def bits(mf, index):
     for v, m in mf.items():
         if m.shape:
             for k in range(m.size):
-                out.append([index[v] * FLAT_W + k, hexf(m.mean[k]), hexf(m.sigma[k])])
+                out.append([index[v] * FLAT_W + (ELEMS[k] if ELEMS else k), hexf(m.mean[k]), hexf(m.sigma[k])])
         else:
             out.append([index[v] * FLAT_W, hexf(m.mean), hexf(m.sigma)])
     return sorted(out)
@@ -89,6 +90,20 @@ def make_delta(d, variables):
     raise ValueError(d["t"])
 
 
+class BatchFn:
+    """factor callable of a plated factor: Factor.subset needs .shape and [index]"""
+    __name__ = "batch_fn"
+
+    def __init__(self, n):
+        self.shape = (n,)
+
+    def __call__(self, *a, **kw):
+        return np.zeros(self.shape)
+
+    def __getitem__(self, index):
+        return BatchFn(int(np.size(index)))
+
+
 def build_raw(c):
     global FLAT_W
     plate = c.get("plate")
@@ -103,6 +118,8 @@ def build_raw(c):
         def fn(*a, **kw):
             return 0.0
         kw = {"plates": (pl,)} if any(v in plated for v in f) else {}
+        if kw:
+            fn = BatchFn(plate["n"])
         factors.append(Factor(fn, *[variables[v] for v in f], name="f%d" % k,
                               arg_names=["a%d" % j for j in range(len(f))], **kw))
     graph = FactorGraph(factors)
@@ -204,8 +221,13 @@ def run_raw(c):
                     rt[1] = after
         else:
             retained.append([approx2, after])
-        retained_changed = [k for k, (obj, snap) in enumerate(retained)
-                            if obj is not approx2 and state_bits(obj, factors, index) != snap]
+        retained_changed = []
+        for k, rt in enumerate(retained):
+            if rt[0] is not approx2:
+                now = state_bits(rt[0], factors, index)
+                if now != rt[1]:
+                    retained_changed.append(k)
+                    rt[1] = now      # report every rewrite once
         out["steps"].append({
             "retained_changed": retained_changed, "n_retained": len(retained),
             "post": post, "global_alias": nat(approx2.model_dist, index),
@@ -218,6 +240,86 @@ def run_raw(c):
         })
         approx = approx2
     out["final"] = state_obs(approx, factors, index)
+    return out
+
+
+def run_subset(c):
+    """EPMeanField.subset -> EPMeanFieldSubset.factor_approximation / project_mean_field -> update / merge,
+    all with the real objects"""
+    variables, index, factors, approx, pl, plated = build_raw(c)
+    idx = {pl: list(c["batch"])}
+    out = {"state0": state_obs(approx, factors, index), "bits0": state_bits(approx, factors, index), "steps": []}
+    approx.mean_field, approx.model_dist
+    for g_ in factors:
+        approx.factor_approximation(g_)
+    sub = approx.subset(idx) if c.get("via_subset", "subset") == "subset" else approx[idx]
+    out["sub_type"] = type(sub).__name__
+
+    batch = list(c["batch"])
+
+    def on_batch(fn, *a):
+        global ELEMS
+        ELEMS = batch
+        try:
+            return fn(*a)
+        finally:
+            ELEMS = None
+
+    def sub_state(sb):
+        fm = sb.factor_mean_field
+        return on_batch(lambda: [nat(fm[sb.factor_subset_factor[f]], index) for f in factors])
+
+    def sub_bits(sb):
+        fm = sb.factor_mean_field
+        return on_batch(lambda: [bits(fm[sb.factor_subset_factor[f]], index) for f in factors])
+
+    def snat(mf):
+        return on_batch(nat, mf, index)
+    out["sub0"] = sub_state(sub)
+    out["sub_bits0"] = sub_bits(sub)
+    out["subglobal0"] = snat(sub.mean_field)
+    out["rescale"] = [sorted([index[v] * FLAT_W, float(x)] for v, x in sub.factor_rescale[sub.factor_subset_factor[f]].items())
+                      for f in factors]
+    for s in c["steps"]:
+        f = factors[s["f"]]
+        fa = sub.factor_approximation(f)
+        pre = {"cavity": snat(fa.cavity_dist), "own": snat(fa.factor_dist), "model": snat(fa.model_dist)}
+        rows = sorted(s["new"], key=lambda row: (row[0] // FLAT_W, batch.index(row[0] % FLAT_W) if row[0] // FLAT_W in plated else 0))
+        new = mk_mf(rows, variables, plated)
+        before = sub_bits(sub)
+        sub2, status = sub.project_mean_field(new, fa, delta=unhex(s["delta"]["d"]), status=Status())
+        after = sub_bits(sub2)
+        out["steps"].append(dict(pre, msg=snat(sub2.factor_mean_field[sub2.factor_subset_factor[f]]),
+                                 **{"global": snat(sub2.mean_field), "state": sub_state(sub2),
+                                    "success": bool(status.success), "updated": bool(status.updated),
+                                    "others_same": all(after[k] == before[k] for k in range(len(factors)) if k != s["f"]),
+                                    "input_same": sub_bits(sub) == before, "sub_type": type(sub2).__name__}))
+        sub = sub2
+    wb = c["writeback"]
+    out["sub_bits_final"] = sub_bits(sub)
+    before = state_bits(approx, factors, index)
+    if wb == "update":
+        final = approx.update(sub)
+        out["same_object"] = final is approx
+    elif wb == "setitem":
+        approx[idx] = sub
+        final = approx
+        out["same_object"] = True
+    elif wb == "merge":
+        final = approx.merge(idx, sub)
+        out["same_object"] = final is approx
+        out["input_same"] = state_bits(approx, factors, index) == before
+    else:
+        final = approx
+    out["final"] = state_obs(final, factors, index)
+    out["final_bits"] = state_bits(final, factors, index)
+    out["final_global"] = nat(final.mean_field, index)
+    out["final_alias"] = nat(final.model_dist, index)
+    out["final_post"] = []
+    for g_ in factors:
+        pa = final.factor_approximation(g_)
+        out["final_post"].append({"cavity": nat(pa.cavity_dist, index), "own": nat(pa.factor_dist, index),
+                                  "model": nat(pa.model_dist, index)})
     return out
 
 
@@ -433,6 +535,8 @@ def run_decl(c):
             got = model.object_for_path(path)
             posterior.append([index[prior], hexf(got.mean), hexf(got.sigma)])
         out["posterior"] = posterior
+        reported = {prior for _, prior in coll.path_priors_tuples}
+        out["posterior_missing"] = sorted(index[p_] for p_ in top.priors if p_ not in reported)
         fm = final.mean_field
         out["final_mean_sigma"] = sorted([index[p], hexf(m.mean), hexf(m.sigma)] for p, m in fm.items())
     except Exception as e:  # noqa
@@ -447,6 +551,8 @@ def run_case(c):
         return run_raw(c)
     if c["kind"] == "par":
         return run_par(c)
+    if c["kind"] == "subset":
+        return run_subset(c)
     if c["kind"] == "decl":
         return run_decl(c)
     raise ValueError(c["kind"])
